@@ -506,6 +506,13 @@ theorem pickL_map {α β} (f : α → β) (i : List Nat) (l : List α) : pickL i
     | none => simp [ih]
     | some a => simp [ih]
 
+theorem every2_length : ∀ (l : List Rat), (every2 l).length = (l.length + 1) / 2
+  | [] => by simp [every2]
+  | [_] => by simp [every2]
+  | _ :: _ :: rest => by
+    simp only [every2, List.length_cons, every2_length rest]
+    omega
+
 /-- the number of values a function returns depends only on the number it is given -/
 theorem applyFn_length (f : FnK) (l : List Rat) : (applyFn f l).length = fnLen f l.length := by
   unfold fnLen
@@ -517,5 +524,10 @@ theorem applyFn_length (f : FnK) (l : List Rat) : (applyFn f l).length = fnLen f
   | id => simp [applyFn]
   | first2 => simp [applyFn]
   | rev => simp [applyFn]
+  | every2 => simp [applyFn, every2_length]
+  | ends =>
+    cases l with
+    | nil => rfl
+    | cons a rest => simp [applyFn, ends, List.range_succ_eq_map]
 
 end Ioapi
